@@ -23,6 +23,8 @@ import (
 	"github.com/logrange/logrange/pkg/model/tag"
 	"github.com/logrange/logrange/pkg/partition"
 	"github.com/logrange/range/pkg/records"
+	"github.com/logrange/range/pkg/records/chunk/chunkfs"
+	"github.com/logrange/range/pkg/records/journal/ctrlr"
 	rrpc "github.com/logrange/range/pkg/rpc"
 	"github.com/logrange/range/pkg/utils/bytes"
 	"github.com/logrange/range/pkg/utils/encoding/xbinary"
@@ -36,6 +38,8 @@ type (
 	ServerIngestor struct {
 		Journals *partition.Service `inject:""`
 		MainCtx  context.Context    `inject:"mainCtx"`
+		// JCfg is the journal controller's configuration: the source of the maximum record size a reader can serve
+		JCfg ctrlr.JournalControllerConfig `inject:"JournalControllerConfig"`
 
 		wg sync.WaitGroup
 	}
@@ -62,6 +66,8 @@ type (
 		pos        int
 		recs       int
 		cur        int
+		// maxRec is the biggest record a chunk reader can serve (0 - not limited), see ServerIngestor.maxRecordSize()
+		maxRec int
 	}
 )
 
@@ -109,12 +115,23 @@ func (si *ServerIngestor) write(reqId int32, reqBody []byte, sc *rrpc.ServerConn
 	defer si.wg.Done()
 
 	var wpi wpIterator
+	wpi.maxRec = si.maxRecordSize()
 	err := wpi.init(reqBody)
 	if err == nil {
 		err = si.Journals.Write(si.MainCtx, wpi.tags, &wpi, false)
 	}
 
 	sc.SendResponse(reqId, err, cEmptyResponse)
+}
+
+// maxRecordSize returns the size of the buffer chunk readers use: a bigger record could be written, but never read back
+func (si *ServerIngestor) maxRecordSize() int {
+	if si.JCfg != nil {
+		if mrs := si.JCfg.GetChunkConfig().MaxRecordSize; mrs > 0 {
+			return int(mrs)
+		}
+	}
+	return chunkfs.ChnkMaxRecordSize
 }
 
 // EncodedSize part of rrpc.Encoder interface
@@ -203,8 +220,13 @@ func (wpi *wpIterator) init(buf []byte) (err error) {
 		if err != nil {
 			return errors.Wrapf(err, "could not decode event %d of %d", i, wpi.recs)
 		}
-		if _, err = field.NewFieldsFromKVString(le.Fields); err != nil {
+		flds, err := field.NewFieldsFromKVString(le.Fields)
+		if err != nil {
 			return errors.Wrapf(err, "could not parse fields of event %d", i)
+		}
+		lge := model.LogEvent{Msg: bytes.StringToByteArray(le.Message), Fields: wpi.flds + flds}
+		if sz := lge.WritableSize(); wpi.maxRec > 0 && sz > wpi.maxRec {
+			return errors.Errorf("event %d needs a record of %d bytes, which exceeds the maximum record size %d", i, sz, wpi.maxRec)
 		}
 		p += n
 	}
